@@ -200,7 +200,7 @@ func Window(a S, p int, f func(w []float64) float64) S {
 	}
 	st := sticky(a)
 	for i := range a.V {
-		if !a.Def(i - p + 1) || !a.Def(i) {
+		if !a.Def(i-p+1) || !a.Def(i) {
 			continue
 		}
 		if st[i] {
@@ -388,11 +388,18 @@ func ExemptWhere(a S, cond func(i int) bool, stickyAfter bool) S {
 	return o
 }
 
+// Rel is the relative rounding tolerance of Close (1e-9 for the short series of the tries; the long series
+// scale it with their length: running sums and recursions accumulate one rounding per step).
+var Rel = 1e-9
+
+// LongSeries is set while a long (thousands of values) series is judged: exact equalities of computed quantities are then ties.
+var LongSeries bool
+
 // Close reports whether got matches want within rounding tolerance.
 func Close(got, want float64) bool {
 	if math.IsNaN(got) || math.IsInf(got, 0) {
 		return false
 	}
 	d := math.Abs(got - want)
-	return d <= 1e-9*math.Max(Scale, math.Max(math.Abs(want), 1))
+	return d <= Rel*math.Max(Scale, math.Max(math.Abs(want), 1))
 }
